@@ -86,3 +86,213 @@ def calls_in(body):
 def callee_name(fnj, res):
     tgt = res["fn"] if res else fnj
     return tgt["pretty"]
+
+
+# ------------------------------------------------------------------------------------------------
+# operands / places enumeration
+
+def operands_of_rvalue(rv):
+    k = rv["k"]
+    if k in ("use", "repeat", "cast"):
+        return [rv["op"]]
+    if k == "binop":
+        return [rv["a"], rv["b"]]
+    if k == "unop":
+        return [rv["a"]]
+    if k == "aggr":
+        return list(rv["ops"])
+    return []
+
+
+def places_of_rvalue(rv):
+    out = [o["place"] for o in operands_of_rvalue(rv) if o["k"] in ("copy", "move")]
+    if rv["k"] in ("ref", "rawptr", "discr"):
+        out.append(rv["place"])
+    return out
+
+
+def all_places(body):
+    """Yield (block index, kind, place, span) for every place read or written in the body (non-cleanup blocks)."""
+    for bi, bb in enumerate(body["blocks"]):
+        if bb["cleanup"]:
+            continue
+        for s in bb["stmts"]:
+            if s["k"] == "assign":
+                yield bi, "write", s["place"], s.get("span")
+                for p in places_of_rvalue(s["rv"]):
+                    yield bi, "read", p, s.get("span")
+            elif s["k"] == "setdiscr":
+                yield bi, "write", s["place"], s.get("span")
+        t = bb["term"]
+        if t["k"] == "call":
+            for a in t["args"]:
+                if a["k"] in ("copy", "move"):
+                    yield bi, "read", a["place"], t.get("span")
+            yield bi, "write", t["dest"], t.get("span")
+            if t["func"]["k"] in ("copy", "move"):
+                yield bi, "read", t["func"]["place"], t.get("span")
+        elif t["k"] == "switch" and t["discr"]["k"] in ("copy", "move"):
+            yield bi, "read", t["discr"]["place"], t.get("span")
+        elif t["k"] == "drop":
+            yield bi, "read", t["place"], t.get("span")
+
+
+def local_defs(body):
+    """local -> list of ('rv', rvalue, span) | ('call', terminator) for whole-local assignments."""
+    defs = {}
+    for bb in body["blocks"]:
+        if bb["cleanup"]:
+            continue
+        for s in bb["stmts"]:
+            if s["k"] == "assign" and not s["place"]["p"]:
+                defs.setdefault(s["place"]["l"], []).append(("rv", s["rv"], s.get("span")))
+        t = bb["term"]
+        if t["k"] == "call" and not t["dest"]["p"]:
+            defs.setdefault(t["dest"]["l"], []).append(("call", t, t.get("span")))
+    return defs
+
+
+def origins(body, local, defs=None, depth=0, seen=None):
+    """Provenance of a local: set of descriptors
+       ('arg', i) | ('addr', root_origins, field_path) | ('load', container_ty, proj_desc, root_origins) | ('call', pretty, unsafe) |
+       ('static', did, mutable) | ('const',) | ('unknown',)"""
+    defs = defs or local_defs(body)
+    seen = seen or set()
+    if local in seen or depth > 12:
+        return {("unknown",)}
+    seen = seen | {local}
+    if 1 <= local <= body["arg_count"]:
+        return {("arg", local)}
+    out = set()
+    for d in defs.get(local, []):
+        if d[0] == "call":
+            t = d[1]
+            f = t["func"]
+            if f.get("ck") == "fn":
+                tgt = (f.get("resolved") or {}).get("fn") or f["fn"]
+                argo = frozenset(x for a in t["args"] if a["k"] in ("copy", "move") for x in origins(body, a["place"]["l"], defs, depth + 1, seen))
+                out.add(("call", tgt["pretty"], bool(f["fn"].get("unsafe")), argo))
+            else:
+                out.add(("unknown",))
+            continue
+        rv = d[1]
+        k = rv["k"]
+        if k in ("use", "cast"):
+            op = rv["op"]
+            if op["k"] in ("copy", "move"):
+                out |= place_origin(body, op["place"], defs, depth, seen)
+            elif op["k"] == "const":
+                if op.get("ck") == "static":
+                    out.add(("static", op["did"], op.get("mutable", False)))
+                else:
+                    out.add(("const",))
+            else:
+                out.add(("unknown",))
+        elif k in ("ref", "rawptr"):
+            pl = rv["place"]
+            root = origins(body, pl["l"], defs, depth + 1, seen)
+            out.add(("addr", frozenset(root), last_field_desc(body, pl)))
+        elif k == "aggr":
+            o = set()
+            for op in rv["ops"]:
+                if op["k"] in ("copy", "move"):
+                    o |= place_origin(body, op["place"], defs, depth, seen)
+            out |= o or {("const",)}
+        else:
+            out.add(("unknown",))
+    return out or {("unknown",)}
+
+
+def last_field_desc(body, place):
+    """(container ADT name, variant name, field index) of the last field step of a place, or None."""
+    tys = prefix_types(body, place)
+    for i in range(len(place["p"]) - 1, -1, -1):
+        p = place["p"][i]
+        if p["k"] == "field":
+            c = tys[i]
+            variant = None
+            if i > 0 and place["p"][i - 1]["k"] == "downcast":
+                variant = place["p"][i - 1].get("name")
+                c = tys[i - 1]
+            if c is not None and c.get("k") == "adt":
+                return (c["name"], variant, p["i"])
+            return None
+    return None
+
+
+def place_origin(body, place, defs, depth, seen):
+    """Provenance of the value stored at a place (a load)."""
+    root = origins(body, place["l"], defs, depth + 1, seen)
+    if not place["p"]:
+        return root
+    desc = last_field_desc(body, place)
+    if desc is None:
+        # pure derefs: value loaded from the location the root pointer addresses
+        out = set()
+        for o in root:
+            if o[0] == "addr" and o[2] is not None:
+                out.add(("load", o[2], o[1]))
+            else:
+                out.add(("load", None, frozenset([o])))
+        return out
+    return {("load", desc, frozenset(root))}
+
+
+def unsafe_ops(prog):
+    """[(fn, kind, detail, span)] unsafe operations per function: raw pointer dereferences, calls to unsafe fns, static mut access."""
+    out = []
+    for fn, body, tag in iter_bodies(prog):
+        defs = None
+        for bi, kind, place, span in all_places(body):
+            tys = prefix_types(body, place)
+            for i, p in enumerate(place["p"]):
+                if p["k"] == "deref" and tys[i] is not None and tys[i].get("k") == "ptr":
+                    if defs is None:
+                        defs = local_defs(body)
+                    if i == 0:
+                        org = origins(body, place["l"], defs)
+                    else:
+                        org = place_origin(body, {"l": place["l"], "p": place["p"][:i]}, defs, 0, set())
+                    out.append((fn, "raw-deref", {"origins": org, "local": place["l"], "access": kind}, span))
+        for bi, t, fnj, res in calls_in(body):
+            tgt = res["fn"] if res else fnj
+            if fnj.get("unsafe") or tgt.get("unsafe"):
+                if defs is None:
+                    defs = local_defs(body)
+                argo = []
+                for a in t["args"]:
+                    if a["k"] in ("copy", "move"):
+                        argo.append(place_origin(body, a["place"], defs, 0, set()))
+                    elif a["k"] == "const" and a.get("ck") == "static":
+                        argo.append({("static", a["did"], a.get("mutable", False))})
+                    else:
+                        argo.append({("const",)})
+                out.append((fn, "unsafe-call", {"callee": tgt["pretty"], "arg_origins": argo}, t.get("span")))
+        for bb in body["blocks"]:
+            if bb["cleanup"]:
+                continue
+            for s in bb["stmts"]:
+                if s["k"] == "assign":
+                    for op in operands_of_rvalue(s["rv"]):
+                        if op["k"] == "const" and op.get("ck") == "static" and op.get("mutable"):
+                            out.append((fn, "static-mut", {"did": op["did"]}, s.get("span")))
+    return out
+
+
+def flatten_origins(org):
+    """All leaf descriptors reachable inside nested origin sets."""
+    res = set()
+    for o in org:
+        if o[0] == "addr":
+            res.add(("addr", o[2]))
+            res |= flatten_origins(o[1])
+        elif o[0] == "load":
+            res.add(("load", o[1]))
+            res |= flatten_origins(o[2])
+        elif o[0] == "call":
+            res.add(("call", o[1]))
+            if len(o) > 3:
+                res |= flatten_origins(o[3])
+        else:
+            res.add(o)
+    return res
